@@ -11,6 +11,8 @@ RULES = {
     'C04.R3': 'a removal must not leave a decision without children (a childless decision is flagged as terminal)',
     'C04.R4': 'every call of Tree::merge_child_with_parent (asserts exactly one child) is preceded by the removal of the node\'s other children and guarded by the single-survivor conditions',
 }
+CONTROL_REV = '078b142'  # thorough tier: the rules must still report the defects found (and since fixed) on the original tree
+CONTROLS = [('C04.R3', 'AffTree::generic_composition_inplace#call:Tree::remove_child'), ('C04.R3', 'AffTree::infeasible_elimination#call:Tree::try_remove_child')]
 FLOORS = {'C04.R1': 5, 'C04.R2': 15, 'C04.R3': 5, 'C04.R4': 5}
 EXPLANATION = 'Input-dimension / common-output-dimension preservation, absence of the childless-decision state, absence of the merge assertion panic, for all histories.'
 DOES_NOT_DECIDE = 'panics reachable through unwrap/indexing inside ndarray/minilp; numeric content of node functions'
